@@ -17,7 +17,7 @@ TITLE = "The solution obeys the algebraic laws of finite-horizon dynamic program
 BUDGET = {"quick": 200, "thorough": 3000}
 RULE = (
     "Cases = (supported model - larger than the C01 bounds: grids up to 12 nodes, T up to 5 -, one law). (a) affine: "
-    "utility' = a*utility + b with a in [0.1,10], b in [-5,5] (wrapper function appended to the specification): "
+    "utility' = a*utility + b with a in [0.1,10], b in [-5,5] (half of the cases: a wrapper function appended to the specification; the other half: a signature-preserving functools.wraps decorator around the user's utility function): "
     "V'_t = a*V_t + b*sum_{k=0}^{T-1-t} beta^k (1e-9 relative to max(1,|V'|); a sub-stream uses models in which last-period states have no feasible choice, so that values of -inf propagate: the pattern of non-finite entries must agree). (b) beta=0: V_t equals the solution of "
     "the ONE-PERIOD model obtained by substituting the literal t for the period in every non-transition function, "
     "for every t. (c) models in which no function mentions the period, horizons T1 < T2: V^{T2}_{T2-k} = "
@@ -49,7 +49,7 @@ def cases(draw):
     infeasible_ok = law == "affine_infeasible"
     law = "affine" if infeasible_ok else law
     spec = draw(model_specs(prof))
-    c = {"spec": spec.to_json(), "law": law, "infeasible_ok": infeasible_ok,
+    c = {"spec": spec.to_json(), "law": law, "infeasible_ok": infeasible_ok, "via_decorator": draw(st.booleans()),
          "a": draw(st.integers(1, 100)) / 10, "b": draw(st.integers(-50, 50)) / 10,
          "extra_T": draw(st.sampled_from([1, 2, 3, 3, 8, 10]))}
     if law == "degenerate":
@@ -153,7 +153,29 @@ def check(case):
     base = lcm_solve(spec)
     if law == "affine":
         a, b = case["a"], case["b"]
-        sol = lcm_solve(affine_spec(spec, a, b))
+        if case.get("via_decorator"):
+            # a*utility+b written as a signature-preserving decorator (functools.wraps) around the
+            # user's utility function
+            import functools
+
+            from lcm.entry_point import get_lcm_function
+
+            from ..ir import to_lcm_model, to_lcm_params
+            from ..runner import call_lcm
+
+            model = to_lcm_model(spec)
+            inner = model.functions["utility"]
+
+            @functools.wraps(inner)
+            def wrapped_utility(*args, **kwargs):
+                return a * inner(*args, **kwargs) + b
+
+            model = model.replace(functions={**model.functions, "utility": wrapped_utility})
+            solve_w, _ = call_lcm(get_lcm_function, model, targets="solve", debug_mode=False)
+            sol = [np.asarray(x) for x in call_lcm(solve_w, to_lcm_params(spec))]
+            cl.append("affine_via_decorator")
+        else:
+            sol = lcm_solve(affine_spec(spec, a, b))
         for t in range(T):
             exp = a * base[t] + b * sum(beta**k for k in range(T - t))
             if sol[t].shape != exp.shape or not close(sol[t], exp, 1e-9):
